@@ -562,7 +562,7 @@ class Gen:
         for idx, (iname, oneof, fields) in enumerate(desc["inputs"]):
             if iname == name:
                 if max_input is not None and idx >= max_input:
-                    return None if valid else ["object", []]
+                    return None       # (also for invalid defaults: a circular default makes coercion recurse forever)
                 if depth <= 0:
                     chosen = [f for f in fields if f[1][0] == "nn" and f[2] is None]
                     if oneof:
@@ -856,6 +856,13 @@ class Runner:
             if m_co[0] == "fuel" or m_va is None or m_li[0] == "fuel":
                 ck.count("model_out_of_fuel")
                 continue
+            if co[0] == "fuel":
+                ck.count("implementation_recursion_limit")
+                if getattr(self, "schema_valid", True):
+                    ck.violation("val:" + json.dumps([t, spec])[:300], f"{type_sdl(t)} <- {short(spec)}: unbounded recursion on a "
+                                 "schema that validate_schema accepts", {"schema": desc, "type": t, "value": spec,
+                                                                         "relation": "coercion terminates on a valid schema"})
+                continue
             nontrivial = spec[0] not in ("none", "undef")
             ck.note_case(("val", key), nontrivial=nontrivial,
                          sample={"type": type_sdl(t), "value": spec} if len(key) < 300 else None)
@@ -1054,6 +1061,8 @@ class Runner:
                     return ("invalid",) if c is Undefined else ("good", unrename(c))
                 except TypeError:
                     return ("crash",)
+                except RecursionError:
+                    return ("fuel",)
                 except Exception as e:  # noqa: BLE001
                     return ("raised", type(e).__name__)
 
@@ -1062,10 +1071,19 @@ class Runner:
                 try:
                     validate_input_literal(node, ty, lambda e, p: ps.append(list(p)), vvx, fx)
                     return ("ok", ps)
+                except RecursionError:
+                    return ("fuel",)
                 except Exception as e:  # noqa: BLE001
                     return ("raised", type(e).__name__)
 
             co, rt, stv, c0 = coerce(vv, fvv), validate_l(vv, fvv), validate_l(None), coerce(None)
+            if "fuel" in (co[0], rt[0], stv[0], c0[0], m_c0[0]):
+                # unbounded recursion through a circular default value: an invalid schema (validate_schema reports it)
+                ck.count("model_out_of_fuel" if m_c0[0] == "fuel" else "implementation_recursion_limit")
+                if getattr(self, "schema_valid", True):
+                    ck.violation(rk, f"{type_sdl(t)} <- {lit_text(l)}: unbounded recursion on a schema that validate_schema accepts",
+                                 dict(rep, relation="coercion terminates on a valid schema"))
+                continue
             const = not has_var(l)
             ck.note_case(("lit", key), nontrivial=l[0] != "null",
                          sample={"type": type_sdl(t), "literal": lit_text(l), "variables": env} if len(key) < 300 else None)
@@ -1205,6 +1223,12 @@ class Runner:
                 continue
             ck.note_case(("vars", key), nontrivial=bool(defs), sample={"operation": src} if len(key) < 300 else None)
             provided = {"".join(map(chr, kk)) for kk, v in inputs if v[0] != "undef"}
+            if isinstance(vv, RecursionError):
+                ck.count("implementation_recursion_limit")
+                if getattr(self, "schema_valid", True):
+                    ck.violation(rk, f"get_variable_values({src}): unbounded recursion on a schema that validate_schema accepts",
+                                 dict(rep, relation="coercion terminates on a valid schema"))
+                continue
             if isinstance(vv, TypeError):
                 got = ("crash",)          # TypeError of an invalid (nested) default value: schema validation's business
             elif isinstance(vv, Exception):
@@ -1383,6 +1407,13 @@ def fragment_scenarios(R, gen, schema, desc, n):
             got = R.fragment_values(schema, src, inputs)
         except (GraphQLError, TypeError):
             got = None
+        except RecursionError:
+            got = None
+            if getattr(R, "schema_valid", True):
+                ck.violation("fragvars:" + src[:300], f"unbounded recursion building fragment variable values for {src} "
+                             "on a schema that validate_schema accepts",
+                             {"relation": "coercion terminates on a valid schema", "schema": desc,
+                              "fragment_document": src, "inputs": inputs})
         except Exception as e:  # noqa: BLE001
             ck.violation("fragvars:" + src[:300], f"building fragment variable values raised {type(e).__name__} for {src}",
                          {"relation": "fragment variable values", "schema": desc, "fragment_document": src, "inputs": inputs})
@@ -1474,6 +1505,11 @@ def replay_dict(R, d):
     from graphql.execution.values import get_variable_values
     desc = d["schema"]
     schema = build_impl_schema(desc)
+    from graphql import validate_schema
+    try:
+        R.schema_valid = not validate_schema(schema)
+    except Exception:  # noqa: BLE001
+        R.schema_valid = False
     if "value" in d:
         R.value_cases(schema, desc, [(d["type"], d["value"])])
     elif "lit" in d:
@@ -1482,7 +1518,16 @@ def replay_dict(R, d):
             desc["args"].append(t)
             schema = build_impl_schema(desc)
         if d.get("fragment_document"):
-            got = R.fragment_values(schema, d["fragment_document"], d.get("inputs") or [])
+            try:
+                got = R.fragment_values(schema, d["fragment_document"], d.get("inputs") or [])
+            except RecursionError:
+                got = None
+                R.ck.count("implementation_recursion_limit")
+                if R.schema_valid:
+                    R.ck.violation("fragvars:" + d["fragment_document"][:300], "unbounded recursion building fragment variable "
+                                   "values on a schema that validate_schema accepts", dict(d, relation="coercion terminates on a valid schema"))
+            except Exception:  # noqa: BLE001
+                got = None
             if got is not None:
                 R.literal_cases(schema, desc, [(desc["args"].index(t), d["lit"], [], d.get("inputs") or [], got[0],
                                                 {"fvv": got[1], "src": d["fragment_document"]})])
@@ -1493,6 +1538,16 @@ def replay_dict(R, d):
             from graphql.execution.values import VariableValues
             vv = VariableValues({}, {k: to_py(v, R.reg) for k, v in env})
         R.literal_cases(schema, desc, [(desc["args"].index(t), d["lit"], [], [], vv)])
+    elif "fragment_document" in d:
+        try:
+            R.fragment_values(schema, d["fragment_document"], d.get("inputs") or [])
+        except RecursionError:
+            R.ck.count("implementation_recursion_limit")
+            if R.schema_valid:
+                R.ck.violation("fragvars:" + d["fragment_document"][:300], "unbounded recursion building fragment variable "
+                               "values on a schema that validate_schema accepts", dict(d, relation="coercion terminates on a valid schema"))
+        except Exception:  # noqa: BLE001
+            pass
     elif "vardefs" in d:
         op = parse(d["operation"]).definitions[0]
         try:
